@@ -340,9 +340,42 @@ func init() {
 			for _, ci := range callsIn(fn, c.Fn("Association.setRWND")) {
 				chk("oob:rwnd", callArg(ci, 1), fromRemote, ci, "rwnd from remote a_rwnd")
 			}
-			for _, ci := range callsIn(fn, c.Fn("Association.setSendZeroChecksum")) {
-				chk("oob:zero-checksum", callArg(ci, 1), fromRemote, ci, "send-zero-checksum from the remote INIT's params")
+			nZC := 0
+			if ssz := c.P.Fn("Association.setSendZeroChecksum"); ssz != nil {
+				for _, ci := range callsIn(fn, ssz) {
+					nZC++
+					chk("oob:zero-checksum", callArg(ci, 1), fromRemote, ci, "send-zero-checksum from the remote INIT's params")
+				}
 			}
+			// ... or learnt in place (the helper inlined): the parameter examined comes from the remote token
+			for _, g := range c.P.Region(fn) {
+				for _, a := range c.storesIn(g, c.field("Association", "sendZeroChecksum")) {
+					b, isB := a.Val.(*ssa.BinOp)
+					if !isB {
+						continue
+					}
+					for _, side := range []ssa.Value{b.X, b.Y} {
+						ld, isLd := unconv(side).(*ssa.UnOp)
+						if !isLd {
+							continue
+						}
+						var src ssa.Value
+						switch r := addrRoot(ld.X).(type) {
+						case *ssa.Extract:
+							if ta, ok := r.Tuple.(*ssa.TypeAssert); ok {
+								src = ta.X
+							}
+						case *ssa.TypeAssert:
+							src = r.X
+						}
+						if src != nil {
+							nZC++
+							c.Check(derivesFromLocalTokenIdx(src, fn, 2), "oob:zero-checksum", c.Pos(a.Instr), "send-zero-checksum from the remote INIT's params", "value does not derive from the expected INIT token: send-zero-checksum from the remote INIT's params")
+						}
+					}
+				}
+			}
+			c.Check(nZC >= 1, "oob:zero-checksum-site", c.P.Pos(fn.Pos()), "the send flag is learnt from the remote token", "with out-of-band tokens the send-side zero-checksum flag is never learnt")
 			gse := c.Fn("getSupportedExtensions")
 			for _, ci := range callsIn(fn, c.Fn("Association.setPeerSupportedExtensions")) {
 				arg := callArg(ci, 1)
